@@ -15,7 +15,7 @@ BUILTINS = {'len', 'abs', 'min', 'max', 'range', 'slice', 'isinstance', 'int', '
             'sum', 'set', 'dict', 'frozenset', 'id', 'type', 'hash', 'getattr', 'repr', 'print', 'zip_longest', 'chain'}
 EXC_NAMES = {'RuntimeError', 'KeyError', 'IndexError', 'ValueError', 'TypeError', 'NotImplementedError',
              'StopIteration', 'AttributeError', 'Exception', 'ZeroDivisionError', 'LookupError'}
-SPECFNS = {'ufi', 'ube', 'ufd', 'holds', 'ufe', 'ub', 'kind_is', 'np_result_type', 'W', 'frozen', 'same_array', 'dtype_class', 'implies', 'iff', 'forall', 'exists', 'forall_in', 'exists_in', 'old', 'cond', 's_start', 's_stop',
+SPECFNS = {'it_pos', 'it_len', 'it_at', 'ufi', 'ube', 'ufd', 'holds', 'ufe', 'ub', 'kind_is', 'np_result_type', 'W', 'frozen', 'same_array', 'dtype_class', 'implies', 'iff', 'forall', 'exists', 'forall_in', 'exists_in', 'old', 'cond', 's_start', 's_stop',
            's_step', 'nth', 'in_slice', 'length', 'at', 'is_none', 'some', 'slice_len_le', 'true', 'false',
            'at_or', 'R_len', 'sum_to'}
 
@@ -373,7 +373,7 @@ class ModuleEnv:
             return eng.need_int(args[0], st, node)
         if name == 'bool' and len(args) == 1:
             return VBool(eng.truth(args[0], st))
-        if name == 'iter' and len(args) == 1 and isinstance(args[0], (VList, VSeq)):
+        if name == 'iter' and len(args) == 1 and isinstance(args[0], (VList, VSeq, VTuple)):
             n_, g_ = eng.as_sequence(args[0], st)
             return VConst(('iterator', n_, g_, z3.IntVal(0)))      # one-shot iterator: (length, getter, cursor)
         if name == 'next' and len(args) >= 1 and isinstance(args[0], VConst) and isinstance(args[0].py, tuple) and args[0].py[0] == 'iterator' \
@@ -686,6 +686,16 @@ class ModuleEnv:
         vals = [eng.ev(x, st) for x in a]
         if name == 'is_none':
             return VBool(eng.identical(vals[0], VNone(), st))
+        if name in ('it_pos', 'it_len', 'it_at'):      # ghost view of a one-shot iterator: cursor, length, element
+            itv = vals[0]
+            if not (isinstance(itv, VConst) and isinstance(itv.py, tuple) and itv.py[0] == 'iterator'):
+                raise SpecError(f'{name}() of a non-iterator')
+            _, n_, g_, pos = itv.py
+            if name == 'it_pos':
+                return VInt(pos)
+            if name == 'it_len':
+                return VInt(n_)
+            return g_(eng.need_int(vals[1], st, node).t)
         if name in ('ufi', 'ube'):      # uninterpreted functions from opaque elements to Int / Bool
             from .sorts import ELEM
             xs = [coerce(v.val if isinstance(v, VOpt) else v, 'elem').t for v in vals[1:]]
